@@ -125,6 +125,16 @@ fn layout_number_digits(digits: &str, exponent: i32, out: &mut String) {
     }
 }
 
+/// ECMAScript Number::exponentiate. Differs from IEEE `pow` in two cases:
+/// a NaN exponent always gives NaN (pow(1, NaN) is 1), and a base of
+/// magnitude 1 with an infinite exponent gives NaN (pow(1, inf) is 1).
+pub fn number_exponentiate(base: f64, exponent: f64) -> f64 {
+    if exponent.is_nan() || (base.abs() == 1.0 && exponent.is_infinite()) {
+        return f64::NAN;
+    }
+    math::powf(base, exponent)
+}
+
 /// ECMAScript ToInt32: truncate toward zero, then wrap modulo 2^32 into the
 /// signed 32-bit range. NaN and the infinities map to 0. (A plain `as i32`
 /// cast saturates instead of wrapping.)
